@@ -30,8 +30,14 @@ fn cfgs(seed: u64) -> Vec<(usize, ChunkSize, String)> {
     ]
 }
 
+mod probes;
+
 fn main() {
     let a: Vec<String> = std::env::args().collect();
+    if a.get(1).map(|s| s == "probe").unwrap_or(false) {
+        probes::main(&a[2..]);
+        return;
+    }
     let prop = a.get(1).cloned().unwrap_or_else(|| "C01".into());
     let seed: u64 = a.get(2).and_then(|s| s.parse().ok()).unwrap_or(0);
     let out_path = a.get(3).cloned().unwrap_or_default();
